@@ -82,3 +82,24 @@ Example C19_domain_inhabited :
   names_contiguous (run_args prog rest) = true /\
   run_module rs (prog :: rest) = Ran [([84;65], [116;95;97])] [].
 Proof. vm_compute. repeat split; reflexivity. Qed.
+
+(* Outside in_domain the statement is FALSE of the faithful model - and of the code (the recorded findings
+   c19-tagging-option-after-write-kinds and c19-attached-option-value-scanned; witnesses by computation):
+   --tagged written after -w <kind> is taken as another kind name, so the tagged loader is never installed ... *)
+Theorem C19_tagged_after_write_kinds_refuted :
+  exists argv r,
+    argv = [[112; 114; 111; 103]; [45; 119]; [103; 114; 97; 112; 104]; [45; 45; 116; 97; 103; 103; 101; 100]] /\
+    set_flags argv = Some r /\ ar_tagged r = false /\
+    In (Some [45; 45; 116; 97; 103; 103; 101; 100]) (ar_kinds r).
+Proof. eexists. eexists. split; [reflexivity|]. vm_compute. repeat split; auto. Qed.
+Print Assumptions C19_tagged_after_write_kinds_refuted.
+
+(* ... and the value attached to a unittest option (-ktest_c1) is scanned for the flag letters: tagged mode is
+   switched on although no tagging option was given, and unittest receives -ktest_c *)
+Theorem C19_attached_option_value_refuted :
+  exists argv r,
+    argv = [[112; 114; 111; 103]; [45; 107; 116; 101; 115; 116; 95; 99; 49]] /\
+    set_flags argv = Some r /\ ar_tagged r = true /\
+    ar_argv r = [[112; 114; 111; 103]; [45; 107; 116; 101; 115; 116; 95; 99]].
+Proof. eexists. eexists. split; [reflexivity|]. vm_compute. repeat split. Qed.
+Print Assumptions C19_attached_option_value_refuted.
